@@ -6,6 +6,7 @@ Appendix A; they are validated against the repository's stored sample files by s
 Native byte order, C int = 4 bytes, double = 8 bytes.
 """
 import random
+import os
 import struct
 
 from .. import kernel
@@ -417,4 +418,39 @@ def write_hadrons_npr(p, cfg, path):
                 info.attrs.create("pIn", _mom_attr(p["mom_in"]))
                 info.attrs.create("pOut", _mom_attr(p["mom_out"]))
                 model[a + "," + b_] = flat
+    return model
+
+
+def write_distillation(p, cfg, root):
+    """Writes <root>/data.<cfg>/<stem>.<cfg>.h5 for every stem of p['stems'] (Hadrons DistillationContraction output);
+    returns model {identifier string: {diagram: [[(re, im)] * Nt per source time x0]}}."""
+    import h5py
+    import numpy as np
+    d = os.path.join(root, "data.%d" % cfg)
+    os.makedirs(d, exist_ok=True)
+    model = {}
+    Nt = p["Nt"]
+    for si, st in enumerate(p["stems"]):
+        rnd = random.Random(kernel.H("data", p["data_seed"], cfg, si))
+        with h5py.File(os.path.join(d, "%s.%d.h5" % (st["stem"], cfg)), "w") as f:
+            g = f.create_group("DistillationContraction")
+            md = g.create_group("Metadata")
+            md.attrs.create("TimeSources", np.array([b"0..."]))
+            md.attrs.create("Nt", np.array([Nt]))
+            inp = md.create_group("DmfInputFiles")
+            for i, parts in enumerate(st["inputs"]):
+                inp.attrs.create("DmfInputFiles_%d" % i, np.array([("/some/dir/%s_g%s_%s_%s.h5" % tuple(parts)).encode()]))
+            inp.attrs.create("DmfInputFiles_size", np.array([len(st["inputs"])]))
+            cg = g.create_group("Correlators")
+            per = {}
+            for dia in p["diagrams_in_file"]:
+                dg = cg.create_group(dia)
+                rows = []
+                for x0 in range(Nt):
+                    v = [(rnd.uniform(-1, 1), rnd.uniform(-1, 1)) for _ in range(Nt)]
+                    dg.create_dataset(str(x0), data=np.array(v, dtype=[("re", "<f8"), ("im", "<f8")]))
+                    rows.append(v)
+                per[dia] = rows
+        ident = str(tuple((a, b, c_, e) for a, b, c_, e in (tuple(x) for x in st["inputs"])))
+        model[ident] = per
     return model
